@@ -255,8 +255,8 @@ pub fn run(ctx: &Ctx) -> Report {
     let mut rep = Report::new(
         "Metamorphic, same input and feed schedule: HTML tokens (minus ParseError) and trees (ModelDom dump + quirks mode) under tokenizer.exact_errors x tree_builder.exact_errors x profile are identical; XML tokens and trees under exact_errors x profile are identical; discard_bom: run(true, x) == run(false, x minus one leading U+FEFF) at token and tree level; drop_doctype: tree equals the other tree minus the doctype node, same quirks mode. exact_errors=true forces the scalar path of the data state, the default takes the SSE2 loop, so this is also the SIMD==scalar oracle: inputs carry text runs of 1..80 bytes with < & CR NUL LF and multi-byte characters at every offset. Inputs: grammar-generated HTML documents/fragments (+BOM prefixes, +text runs) and generated XML, random chunkings. profile=true output is kept off stdout by redirecting fd 1 for the duration of the run. Non-trivial: a text run >= 16 bytes without a special character (the two runs took different code paths), or U+FEFF in the input, or a doctype in the tree (HTML); CR/NUL/BOM/reference present (XML); distinct by case hash.",
     );
-    report_known(ctx, &mut rep, &|v| replay(ctx, v));
-    run_regressions(ctx, &mut rep, &|v| replay(ctx, v));
+    report_known(ctx, &mut rep, &|v| replay(&ctx.strict_clone(), v));
+    run_regressions(ctx, &mut rep, &|v| replay(&ctx.strict_clone(), v));
     let out = with_stdout_silenced(|| run_random(ctx.seed, ctx.tier.pick(60_000, 3_000_000), 1500, decode, check));
     rep.absorb(out);
     for l in [
